@@ -4,6 +4,15 @@
 use crate::spec::*;
 use crate::values::*;
 
+/// `darling`, now and then spelled as a raw identifier: the same attribute
+fn attr_word(k: usize) -> &'static str {
+    if k % 7 == 3 {
+        "r#darling"
+    } else {
+        "darling"
+    }
+}
+
 fn field_attr(recvs: &[Recv], scope: &str, f: &Field, k: usize) -> String {
     let hn = f.rust.trim_start_matches("r#");
     let mut opts: Vec<String> = vec![];
@@ -49,9 +58,9 @@ fn field_attr(recvs: &[Recv], scope: &str, f: &Field, k: usize) -> String {
     }
     if f.split_attrs && opts.len() > 1 {
         let (a, b) = opts.split_at(1);
-        format!("#[darling({})] #[darling({})] ", a.join(", "), b.join(", "))
+        format!("#[darling({})] #[{}({})] ", a.join(", "), attr_word(k), b.join(", "))
     } else {
-        format!("#[darling({})] ", opts.join(", "))
+        format!("#[{}({})] ", attr_word(k), opts.join(", "))
     }
 }
 
@@ -191,9 +200,9 @@ pub fn emit_recv(recvs: &[Recv], r: &Recv, out: &mut String) {
     if !copts.is_empty() {
         if copts.len() > 2 && r.id % 3 == 0 {
             let (a, b) = copts.split_at(1);
-            out.push_str(&format!("#[darling({})]\n#[darling({})]\n", a.join(", "), b.join(", ")));
+            out.push_str(&format!("#[{}({})]\n#[darling({})]\n", attr_word(r.id), a.join(", "), b.join(", ")));
         } else {
-            out.push_str(&format!("#[darling({})]\n", copts.join(", ")));
+            out.push_str(&format!("#[{}({})]\n", attr_word(r.id + 1), copts.join(", ")));
         }
     }
     match &r.shape {
@@ -355,7 +364,7 @@ pub fn emit_recv(recvs: &[Recv], r: &Recv, out: &mut String) {
                 if v.word_false {
                     vo.push("word = false".into());
                 }
-                let attr = if vo.is_empty() { String::new() } else { format!("#[darling({})] ", vo.join(", ")) };
+                let attr = if vo.is_empty() { String::new() } else { format!("#[{}({})] ", attr_word(r.id + vi), vo.join(", ")) };
                 match &v.body {
                     VBody::Unit => out.push_str(&format!("    {attr}{},\n", v.rust)),
                     VBody::Newtype(t) => {
